@@ -234,6 +234,58 @@ Section WithSort.
     end.
 End WithSort.
 
+(* ------------------------------------------------------------------ a proxy serves a SEQUENCE of searches *)
+(* one search as the proxy sees it: what every replica does with THIS search, the request, the
+   scheduling choices, the stores whose Fetch call fails *)
+Record sreq := mkReq {
+  q_p1 : bool; q_p2 : bool; q_hot : list shard; q_hotread : list shard; q_cold : list shard;
+  q_off : nat; q_size : nat; q_rev : bool; q_itv : N; q_naggs : nat; q_ffail : list src }.
+
+Section Sequence.
+  Variable sort : (ids -> ids -> bool) -> list ids -> list ids.
+
+  Definition search_req (q : sreq) : sres :=
+    search_full sort (q_p1 q) (q_p2 q) (q_hot q) (q_hotread q) (q_cold q) (q_off q) (q_size q) (q_rev q)
+                (q_itv q) (q_naggs q) (q_ffail q).
+
+  (* search.Ingestor keeps nothing from one search to the next: config, clients and the source tables
+     are fixed at construction (NewIngestor); Search / searchStores / searchShard / FetchDocsStream only
+     use locals. The state of the proxy between searches is therefore trivial. *)
+  Definition pstate := unit.
+  Definition proxy_step (st : pstate) (q : sreq) : pstate * sres := (st, search_req q).
+  Fixpoint proxy_run (st : pstate) (qs : list sreq) : list sres :=
+    match qs with
+    | [] => []
+    | q :: r => let (st', o) := proxy_step st q in o :: proxy_run st' r
+    end.
+End Sequence.
+
+(* the variant of a seeded regression, kept for its refutation: searchShard remembers per shard the
+   position of the replica that answered last and starts the next search there, never wrapping back
+   to earlier replicas. One tier; state = start position of every shard. *)
+Fixpoint answer_pos (sh : shard) : option nat :=
+  match sh with
+  | [] => None
+  | (_, b) :: r => match b with BOk _ _ => Some 0 | BErr => option_map S (answer_pos r) | _ => None end
+  end.
+Fixpoint sticky_shards (starts : list nat) (shards : list shard) : list shard :=
+  match shards with
+  | [] => []
+  | sh :: r => skipn (hd 0 starts) sh :: sticky_shards (tl starts) r
+  end.
+Fixpoint sticky_next (starts : list nat) (shards : list shard) : list nat :=
+  match shards with
+  | [] => []
+  | sh :: r =>
+      let st := hd 0 starts in
+      (match answer_pos (skipn st sh) with Some k => st + k | None => st end) :: sticky_next (tl starts) r
+  end.
+Fixpoint sticky_run (prio : bool) (starts : list nat) (qs : list (list shard)) : list tier_res :=
+  match qs with
+  | [] => []
+  | shards :: r => search_stores prio (sticky_shards starts shards) :: sticky_run prio (sticky_next starts shards) r
+  end.
+
 (* ------------------------------------------------------------------ proxyapi: outcome -> API answer *)
 (* doSearch + Search/ComplexSearch after the request validation (size > 0 etc.):
    parseProxyError (too many fractions -> response carrying only that error),
